@@ -485,4 +485,26 @@ example : ∃ b k, build { d := [8, 1] } (.withTask (.cloneStream (.withErrorHan
     succeeded (call b (.toChunkReader 1 true)) ∧ taskResults b = [(0, none), (1, none)] ∧ spine b = [1] ∧
     (call b (.toChunkReader 1 true)).waited = [0, 1, 1] := ⟨_, _, rfl, ⟨rfl, rfl, rfl⟩, rfl, rfl, rfl⟩
 
+/-! ### the source is released -/
+
+/-- No program drops a buffer: with the repaired `validatedReaderBuffer.WithTask`
+the source of every source-backed buffer is closed exactly once. -/
+theorem C15_source_released (env : Env) (h : env.ratRepaired = true) (e : BufExpr) :
+    leaks env e = false ∧ (closes env e = none ∨ closes env e = some 1) := by
+  have hl : leaks env e = false := by
+    induction e with
+    | base k => rfl
+    | cloneStream e _ _ ih => exact ih
+    | cloneCopy e _ ih => exact ih
+    | withErrorHandler e ih => exact ih
+    | withTask e r ih => simp [leaks, ih, h]
+  refine ⟨hl, ?_⟩
+  simp only [closes, hl]
+  cases baseKind e <;> simp
+
+/-- The pinned code: a failing foreground task on a reader-at buffer leaks the reader (D11). -/
+theorem D11_legacy_counterexample :
+    closes { d := [8, 1], ratRepaired := false } (.withTask (.base .readerAt) (some 10)) = some 0 ∧
+    closes { d := [8, 1], ratRepaired := true } (.withTask (.base .readerAt) (some 10)) = some 1 := ⟨rfl, rfl⟩
+
 end BB.C15
